@@ -176,15 +176,15 @@ OnIdle(g, e) ==
   (* the loop is idle: every session that is not inside a waiting method has answered all its lines; the
      served pool and the twin pool (driven by direct calls) are in the same observable state *)
   LET waiting(s) == Len(g.q[s]) > 0 /\ (Head(g.q[s]).twinkind = "await" \/ Head(g.q[s]).cls = "await")
-                    /\ ~(Head(g.q[s]).twinkind = "await" /\ Head(g.q[s]).twi \in SeqSet(e.twdone))
+                    /\ ~(Head(g.q[s]).twinkind = "await" /\ Head(g.q[s]).twi \in SeqSet(e.twdone) /\ Len(g.q[s]) = 1)
       vs == UNION {IF g.ended[s] \/ waiting(s) THEN {} ELSE Chk("C18.one", s, Len(g.q[s]) = 0) : s \in Sess}
             \cup UNION {Chk("C16.name", s, ~(g.st.ss[s].ph = "connected" /\ g.nw[s] = 0)) : s \in Sess}
             \* a well-formed command whose direct call has returned / raised must have been answered by now
             \cup UNION {IF ~g.ended[s] /\ Len(g.q[s]) > 0 /\ Head(g.q[s]).ser
                            /\ (Head(g.q[s]).twinkind = "value"
-                               \/ (Head(g.q[s]).twinkind = "await" /\ Head(g.q[s]).twi \in SeqSet(e.twdone)))
+                               \/ (Head(g.q[s]).twinkind = "await" /\ Head(g.q[s]).twi \in SeqSet(e.twdone) /\ Len(g.q[s]) = 1))
                         THEN Chk("C17.reply", s, FALSE) ELSE {} : s \in Sess}
-            \cup (IF e.tobs # "" /\ \A s \in Sess : ~waiting(s) THEN Chk("C17.state", -1, e.pobs = e.tobs /\ e.samecalls) ELSE {})
+            \cup (IF e.tobs # "" /\ \A s \in Sess : Len(g.q[s]) = 0 \/ g.ended[s] THEN Chk("C17.state", -1, e.pobs = e.tobs /\ e.samecalls) ELSE {})
   IN MOut(g, vs, Hit("C18.one", TRUE) \cup Hit("C17.state", e.tobs # ""))
 
 OnSDone(g, e) ==
